@@ -289,3 +289,49 @@ func VerifC11Tablerow() {
 	}
 	nd.Reach("C11.tablerow")
 }
+
+// VerifC11TablerowModifiers: tablerow honours reversed/offset/limit like for, and closes the
+// last row at the last selected item.
+func VerifC11TablerowModifiers() {
+	l := nd.Choice(5)
+	o, n := nd.IntIn(0, 5), nd.IntIn(0, 5)
+	cols := 1 + nd.Choice(3)
+	reversed := nd.Choice(2) == 1
+	src := "{% tablerow x in a"
+	if reversed {
+		src += " reversed"
+	}
+	src += " cols: c offset: o limit: n %}{{ x }}{{ forloop.index }}{% endtablerow %}"
+	out, err := vRender(src, Bindings{"a": c11Collection(0, l), "c": cols, "o": o, "n": n})
+	nd.Assert(err == nil, "tablerow-modifiers-no-error")
+	items := make([]string, l)
+	for i := 0; i < l; i++ {
+		if reversed {
+			items[i] = c11Items[l-1-i]
+		} else {
+			items[i] = c11Items[i]
+		}
+	}
+	start := o
+	if start > l {
+		start = l
+	}
+	end := l
+	if n < l-start {
+		end = start + n
+	}
+	sel := items[start:end]
+	want := ""
+	for i, it := range sel {
+		row, col := i/cols, i%cols
+		if col == 0 {
+			want += `<tr class="row` + vItoa(row+1) + `">`
+		}
+		want += `<td class="col` + vItoa(col+1) + `">` + it + vItoa(i+1) + `</td>`
+		if (i+1)%cols == 0 || i+1 == len(sel) {
+			want += `</tr>`
+		}
+	}
+	nd.Assert(out == want, "tablerow-modifiers-reference")
+	nd.Reach("C11.tablerowmodifiers")
+}
